@@ -28,7 +28,9 @@ NOTE = (
     "threshold, Gamma0>0, d>0; the substitute tensorflow is diffed against real TensorFlow on every run"
 )
 TECHNIQUE = "symbolic execution of breit_wigner.py / formula.py / particle models on a symbolic tensorflow substitute; z3 nlsat per obligation; sympy expressions translated node by node; sat models replayed on real TensorFlow"
-EXPLANATION = CLAIM
+CLAIM_EXTRA = "Second layer (props/C15pm.py): the registered particle classes built by ConfigLoader exactly as a user configures them (model: BWR/default, BWR2, BWR_below incl. the effective-mass continuation, BWR_coupling, BWR_normal, BW, LASS, GS_rho, one, x, exp, exp_com, Flatte, FlatteC, FlatteGen and Flatte2 with their options, BWR_LS with 1-3 (thorough: 5) partial waves) evaluated through DecayChain.get_amp_particle with symbolic m, m0, Gamma0 and model parameters against the formula of their own docstring (L = 0..2, thorough 3); the decay's |q|, |q0| against the documented break-up momenta; every class's get_sympy_dom(*get_sympy_var()) at get_num_var() times Particle.__call__ = 1 on the physical sheet. Compositional where nlsat does not decide the composite: momenta as free positive symbols on both sides with cal_monentum / the decay momenta / Bprime_q2 decided separately."
+NOTE_EXTRA = 'particle classes: one decay A -> R D, R -> B C with dyadic masses; Flatte family above the pseudo-thresholds |ma - mb|; Kmatrix / KMatrix* / MultiBWR / BWR_LS2 / interpolation particles have no closed documented formula encoded (outside the claim)'
+EXPLANATION = CLAIM + " " + CLAIM_EXTRA
 FUNCTIONS = [
     "tf_pwa/breit_wigner.py:BW", "tf_pwa/breit_wigner.py:BWR", "tf_pwa/breit_wigner.py:BWR2", "tf_pwa/breit_wigner.py:BWR_normal",
     "tf_pwa/breit_wigner.py:GS", "tf_pwa/breit_wigner.py:Gamma", "tf_pwa/breit_wigner.py:Gamma2", "tf_pwa/breit_wigner.py:Bprime",
@@ -37,10 +39,19 @@ FUNCTIONS = [
     "tf_pwa/breit_wigner.py:barrier_factor2", "tf_pwa/breit_wigner.py:twoBodyCMmom", "tf_pwa/breit_wigner.py:hFun", "tf_pwa/breit_wigner.py:dh_dsFun",
     "tf_pwa/breit_wigner.py:dFun", "tf_pwa/breit_wigner.py:fsFun", "tf_pwa/breit_wigner.py:one",
     "tf_pwa/formula.py:BW_dom", "tf_pwa/formula.py:BWR_dom", "tf_pwa/formula.py:BWR_coupling_dom", "tf_pwa/formula.py:Bprime_polynomial",
-    "tf_pwa/formula.py:get_relative_p", "tf_pwa/formula.py:get_relative_p2",
+    "tf_pwa/formula.py:get_relative_p", "tf_pwa/formula.py:get_relative_p2", "tf_pwa/formula.py:BWR_LS_dom",
+    "tf_pwa/amp/core.py:Particle.get_amp", "tf_pwa/amp/core.py:Particle.__call__", "tf_pwa/amp/core.py:Particle.get_sympy_dom", "tf_pwa/amp/core.py:DecayChain.get_amp_particle",
+    "tf_pwa/amp/core.py:HelicityDecay.get_relative_momentum", "tf_pwa/amp/core.py:HelicityDecay.get_relative_momentum2", "tf_pwa/amp/core.py:_ad_hoc",
+    "tf_pwa/amp/base.py:ParticleBWR2.get_amp", "tf_pwa/amp/base.py:ParticleBWRBelowThreshold.get_amp", "tf_pwa/amp/base.py:ParticleBWRCoupling.get_amp", "tf_pwa/amp/base.py:ParticleBWRCoupling.get_sympy_dom",
+    "tf_pwa/amp/base.py:ParticleBWR_normal.get_amp", "tf_pwa/amp/base.py:ParticleGS.get_amp", "tf_pwa/amp/base.py:ParticleBW.get_amp", "tf_pwa/amp/base.py:ParticleLass.get_amp",
+    "tf_pwa/amp/base.py:ParticleOne.get_amp", "tf_pwa/amp/base.py:ParticleExp.get_amp", "tf_pwa/amp/base.py:ParticleExpCom.get_amp",
+    "tf_pwa/amp/flatte.py:cal_monentum", "tf_pwa/amp/flatte.py:cal_monentum_sympy", "tf_pwa/amp/flatte.py:ParticleFlatte.get_amp", "tf_pwa/amp/flatte.py:ParticleFlatte.get_sympy_dom",
+    "tf_pwa/amp/flatte.py:ParticleFlateGen.get_amp", "tf_pwa/amp/flatte.py:ParticleFlateGen.get_sympy_dom", "tf_pwa/amp/flatte.py:ParticleFlate2.get_coeff",
+    "tf_pwa/amp/split_ls.py:ParticleBWRLS.get_ls_amp", "tf_pwa/amp/split_ls.py:ParticleBWRLS.get_ls_amp_frac", "tf_pwa/amp/split_ls.py:ParticleBWRLS.factor_gamma", "tf_pwa/amp/split_ls.py:ParticleBWRLS.get_sympy_dom", "tf_pwa/amp/split_ls.py:ParticleBWRLS.__call__",
 ]
 ASSUMPTIONS = [
     "reals stand in for doubles (rounding outside the claim)",
+    "second layer, compositional steps: (i) LASS / BWR_normal / GS_rho read |q|, |q0| from the decay data: decided with q, q0 free positive symbols, and the decay's own |q|, |q0|, |q|2, |q0|2 decided to be the documented momenta (pmq); (ii) Flatte family: tf_pwa.amp.flatte.cal_monentum (and its sympy twin) replaced by stubs returning Q_i or i Q_i with Q_i > 0 free, one case per realisable open/closed pattern of the channels, cal_monentum decided against the documented q_i separately (calmom); (iii) BWR_LS: q^2 = k^2 q0^2 with k, q0^2 free and Bprime_q2 a stub B_l > 0 with B_l^2 P_l(q^2 d^2) = P_l(q0^2 d^2) (Bprime_q2 decided by the first layer); tanh, exp, cos, sin uninterpreted",
     "log is uninterpreted: the GS line shape is compared with an independently written Gounaris-Sakurai formula using the same uninterpreted log (equality of arguments is decided, the values of log are not)",
     "pi enters GS as the constant the code actually uses: float32(3.14159265359) = 3.1415927410125732 (tf.cast of a Python float goes through float32); the 2.8e-8 relative deviation from pi is an observation, not counted as a violation",
     "GS is decided compositionally: h, dh/ds, D, f individually (symbolic daughter masses), then the assembly with dFun / fsFun replaced by opaque values (stubs)",
